@@ -162,6 +162,22 @@ def generate_coq(all_specs):
         raise RuntimeError("extractor failed:\n" + out)
     # the extractor prints parse errors on stderr (merged); JSON starts at first '{'
     data = json.loads(out[out.index("{"):])
+    # func_gallina: Gallina definitions translated from Go function bodies / statement ranges by
+    # harness/extract/gallina.go (the accepted fragment is documented there); refused => no definition
+    gspecs = {s["name"]: s for s in all_specs if s.get("kind") == "func_gallina"}
+    gallina = {}
+    if gspecs:
+        import tempfile
+        with tempfile.NamedTemporaryFile("w", suffix=".json", prefix="gallina-", delete=False) as tf:
+            json.dump([gspecs[k] for k in sorted(gspecs)], tf)
+        try:
+            rc, gout, _ = sh([exe, "-gallina", tf.name, REPO], timeout=120)
+            if rc == 0:
+                gallina = json.loads(gout[gout.index("{"):])
+        except (ValueError, OSError):
+            gallina = {}
+        finally:
+            os.unlink(tf.name)
     lines = ["(* GENERATED from %s by bin/check (harness/extract) -- do not edit. *)" % REPO,
              "From Coq Require Import String List NArith ZArith.",
              "From MevVerif Require Import lib.Bytes.",
@@ -266,6 +282,26 @@ def generate_coq(all_specs):
                     raise KeyError("empty body")
                 term = "[" + "; ".join(coq_string_bytes(t) for t in st) + "]"
                 comment = " | ".join(st)
+            elif kind == "composite_fields":
+                # (key source, value source) of every keyed element of the FIRST composite literal (source order,
+                # nested ones and &T{...} included) whose type prints as `type`, searched in the body of `func`
+                # or in the initialiser of the package-level variable `var`
+                typ = "list (bytes * bytes)"
+                scope = ("func:" + s["func"]) if "func" in s else ("var:" + s["var"])
+                lits = [c for c in f.get("composites", []) if c["scope"] == scope and c["type"] == s["type"]]
+                if not lits:
+                    raise KeyError("no composite literal of type %s in %s" % (s["type"], scope))
+                if not lits[0]["keyed"]:
+                    raise KeyError("non-keyed element in the literal")
+                term = "[" + "; ".join("(%s, %s)" % (coq_string_bytes(k), coq_string_bytes(v))
+                                       for k, v in lits[0]["fields"]) + "]"
+                # (double quotes would open a string inside the Coq comment; the cut at 300 characters could unbalance them)
+                comment = " | ".join("%s: %s" % (k, v) for k, v in lits[0]["fields"]).replace('"', "'")
+            elif kind == "func_gallina":
+                g = gallina.get(name)
+                if not g or g.get("err") or not g.get("term"):
+                    raise KeyError("not translated: %s" % ((g or {}).get("err") or "translator failed"))
+                typ, term, comment = g["type"], g["term"], g.get("comment", "").replace('"', "'")
             elif kind == "has_call":
                 fn = f["funcs"][s["func"]]
                 typ = "bool"
